@@ -24,6 +24,25 @@ class SingleRootField(June2018ReleaseValidationRule):
     RULE_LINK = "https://graphql.github.io/graphql-spec/June2018/#sec-Single-root-field"
     RULE_NUMBER = "5.2.3.1"
 
+    def _collect_response_keys(self, selection_set, fragments, visited, keys):
+        for selected in selection_set.selections:
+            if isinstance(selected, FragmentSpreadNode):
+                if selected.name.value in visited:
+                    continue
+                visited.add(selected.name.value)
+                frag = _find_fragment(fragments, selected.name.value)
+                if frag:
+                    self._collect_response_keys(
+                        frag.selection_set, fragments, visited, keys
+                    )
+            elif isinstance(selected, InlineFragmentNode):
+                self._collect_response_keys(
+                    selected.selection_set, fragments, visited, keys
+                )
+            else:
+                keys.add((selected.alias or selected.name).value)
+        return keys
+
     def _validate_selection_set(
         self, operation, selection_set, fragments, path
     ):
@@ -61,7 +80,18 @@ class SingleRootField(June2018ReleaseValidationRule):
     def validate(self, path, definitions, **__):
         errors = []
         for operation in definitions["OperationDefinition"]:
-            if operation.operation_type == "subscription":
+            if operation.operation_type != "subscription":
+                continue
+
+            # Selections sharing a response key are merged into one entry by
+            # CollectFields: only distinct response keys count as root fields
+            response_keys = self._collect_response_keys(
+                operation.selection_set,
+                definitions["FragmentDefinition"],
+                set(),
+                set(),
+            )
+            if len(response_keys) > 1:
                 errors.extend(
                     self._validate_selection_set(
                         operation,
